@@ -10,6 +10,18 @@ package channel
 
 //@ func (*Channel).SendInput
 //@   noverify
-//@   modifies sent
+//@   modifies sent, optlog
 //@   ensures sent == old(sent) ++ strs(input)
 //@   ensures result.1 != nil ==> len(result.0) == 0
+
+// ---- C19: constructors apply the whole option list, in order ------------------------------------------
+//@ func NewOperation [C19 C05]
+//@   modifies alloc(), optlog
+//@   ensures #fresh result.1 == nil ==> fresh(result.0)
+//@   ensures #nil-on-error result.1 != nil ==> result.0 == nil
+//@   ensures #error-is-not-ignored-sentinel result.1 != nil ==> !isErr(result.1, util.ErrIgnoredOption)
+//@   ensures #every-option-applied-in-order result.1 == nil ==> optlog == old(optlog) ++ applied(options, box("*channel.OperationOptions", result.0), len(options))
+//@   loop 1 invariant -1 <= rangeindex && rangeindex < len(options) && isnew(o) && o != nil
+//@   loop 1 invariant optlog == old(optlog) ++ applied(options, box("*channel.OperationOptions", o), rangeindex + 1)
+//@   loop 1 invariant rangeindex == -1 ==> o.StripPrompt && !o.Eager && !o.ExactMatchInput && o.Timeout == -1
+//@   ensures #defaults result.1 == nil && len(options) == 0 ==> result.0.StripPrompt && !result.0.Eager && !result.0.ExactMatchInput && result.0.Timeout == -1
